@@ -8,6 +8,21 @@ ALL = [f'C{i:02d}' for i in range(1, 21)]
 
 # property -> (level text, level note, technique, design section)
 CHECKS = {
+    'C07': (
+        'Lean 4 theorems over all mappings and action sequences: the routing bookkeeping (MappingManager: logical->physical and physical->logical arrays) keeps the '
+        'two arrays mutually inverse permutations under apply_swap (C07_applySwap_inv) and hence under every sequence of router actions (C07_route_inv); the physical '
+        'events a router emits — operations placed at the current places of their qubits, SWAP insertions — read back from the initial mapping by un-mapping operations and '
+        'tracking SWAPs are exactly the logical operations in placement order, ending in the reported mapping (C07_replay_route). T2: RouteCQC.route_circuit on generated '
+        'circuits x connected device graphs (lines, rings, grids, trees, extra edges) x lookahead radii x initial mappers: two-qubit operations on graph edges only; the routed '
+        'circuit read back by the Lean replay lists the original operations in an order respecting every qubit (C06 check, so C06_reordering_preserves_state applies) and ends '
+        'in the reported swap map; numerically the routed circuit followed by the inverse permutation equals the mapped original (Lean C01 product). Target gatesets (CZ, '
+        'partial CZ, sqrt-iSWAP incl. required count, Sycamore, Google CZ, IonQ QIS / Aria / Forte, AQT, Pasqal): output accepted by the gateset and equal up to global phase '
+        '(Lean C01 product). AQT / IonQ / Pasqal devices: validate_operation accepts only gateset members on device qubits and accepts every such operation (AQT, IonQ).',
+        'Trusted: Lean kernel; harness + drivers; the SWAP matrix (C03) links SWAP events to SWAP operations; gateset membership and device metadata read from the library; '
+        'compilation correctness itself is T2 (numerical, through the Lean product); GridDevice is covered by C16; no-compile tags and sub-circuits not covered yet.',
+        'Lean 4 proof (array-permutation invariant by induction over swap sequences; replay theorem) + differential correspondence',
+        'DESIGN.md §3 C07',
+    ),
     'C06': (
         'Lean 4 theorems over all operation lists: two lists with the same distinct operations and the same order on every wire (qubits, measurement and control '
         'keys) differ by exchanges of adjacent independent operations (C06_same_wire_order_is_swaps: the projection lemma of trace theory, by induction on the first '
